@@ -367,7 +367,7 @@ func decode(w []byte) *model.ConsensusVerifyMessage {
 func sharesStr(s []logical.VerifRoundShare) string {
 	var b strings.Builder
 	for _, x := range s {
-		b.WriteString(x.Id[len(x.Id)-6:])
+		b.WriteString(x.Id)
 		b.WriteByte('=')
 		b.WriteString(hex.EncodeToString(x.Sig))
 		b.WriteByte(';')
@@ -649,6 +649,10 @@ func (e *env) account(c *fw.Ctx, seq []int, res result, countNontrivial bool) {
 	for _, o := range res.outcomes[:min(len(res.outcomes), len(res.keys)+1)] {
 		c.Outcome(o)
 	}
+	if res.f == nil && len(seq) >= 3 && res.admitted > 0 && res.refused > 0 {
+		c.Sample(map[string]interface{}{"n": e.n, "k": e.k, "messages": e.names(seq), "model": res.outcomes,
+			"final_state": res.keys[len(res.keys)-1]})
+	}
 	if countNontrivial && res.f == nil && res.admitted > 0 && res.refused > 0 {
 		c.Nontrivial(fmt.Sprintf("%d|%s", e.n, strings.Join(e.names(seq), ",")))
 	}
@@ -696,7 +700,6 @@ func (e *env) bfs(c *fw.Ctx, byz []int, depth int, litLen, litByz int) {
 					seen[k] = true
 					c.State(1)
 					next = append(next, seq)
-					c.Sample(map[string]interface{}{"part": "bfs", "n": e.n, "seq": e.names(seq), "model": res.outcomes})
 				}
 			}
 		}
